@@ -349,7 +349,7 @@ pub fn check_in_document(text: &str, untagged: &CN, stats: &mut Stats) {
         stats.cnt("skipped_parse_does_not_terminate", 1);
         return;
     }
-    let ctx = crate::scalars::FlowCtx { in_flow: false, single_line: true, cont_min: 1, top_level: false };
+    let ctx = crate::scalars::FlowCtx { in_flow: false, single_line: true, cont_min: 1, top_level: false, first_col0: false };
     if !crate::scalars::plain_ok(text, ctx) {
         return;
     }
